@@ -1239,7 +1239,10 @@ func p30catcher(i int) (bad int) {
 		}
 	}()
 	defer func() {
-		p30clobber(30)
+		p30clobber(60)
+		runtime.GC()
+		p30churn(3000)
+		p30clobber(60)
 		runtime.GC()
 		p30churn(3000)
 	}()
@@ -1248,11 +1251,11 @@ func p30catcher(i int) (bad int) {
 }
 func p30(x int) (res int) {
 	bad := 0
-	for i := 1; i <= 20; i++ {
+	for i := 1; i <= 60; i++ {
 		bad += p30catcher(x*100 + i)
 	}
-	println("p30.corrupted", bad)
-	return bad
+	println("p30.corrupted", bad > 0)
+	return 0
 }
 '''
 
